@@ -60,7 +60,7 @@ def validate_trace(ck, args, sc, label):
             fh.write(json.dumps(e) + "\n")
     beta4 = [int(round(4 / t)) for t in args["temps"]]
     mod = ("---- MODULE MC_PTTrace ----\nEXTENDS PTTrace\nMCBeta4 == %s\nMCETab == %s\nMCInit == %s\nMCELo == %d\n====\n"
-           % (tla_val(beta4), tla_val(PT.etable()), tla_val([i["pos"] for i in sc["result"]["init"]]), PT.WLO))
+           % (tla_val(beta4), tla_val(PT.etable(args.get("eoffset", 0))), tla_val([i["pos"] for i in sc["result"]["init"]]), PT.WLO))
     cfg = ("SPECIFICATION TraceSpec\nCONSTANTS N = %d MB = %d\n Beta4 <- MCBeta4\n ETab <- MCETab\n ELo <- MCELo\n InitPos <- MCInit\n"
            "INVARIANT ProbsBelong\nINVARIANT Report\nCONSTRAINT Progress\nPOSTCONDITION TraceAccepted\nCHECK_DEADLOCK FALSE\n" % (n, PT.MBITS))
     r = run_tlc("MC_PTTrace", cfg_text=cfg, extra_files={"MC_PTTrace.tla": mod}, workers=1, dfs=True,
@@ -190,6 +190,11 @@ def impl_part(ck, tier):
     # by the first exchange, before any step
     scen.append(("n3_hmc", dict(temps=[1, 2, 4], starts=[[-3, 4], [4, -3], [0, 1]], kind="hmc", display=True, seed=s + 8,
                                 prog=[["swap"], ["steps", 2], ["swap"], ["advance", 6, 3], ["return"], ["shutdown"]])))
+    # more than 50 exchange cycles in one advance (the grouped loop changes regime at 50), and a log-density of large magnitude
+    # (every energy shifted by 3000 per coordinate: log-probabilities around -4000, differences unchanged)
+    scen.append(("n2_long", dict(temps=[1, 4], starts=[[-3], [4]], kind="gibbs", display=False, seed=s + 9,
+                                 prog=[["advance", 159, 3], ["return"], ["shutdown"]])))
+    scen.append(("n3_offset", dict(base3, eoffset=3000, seed=s + 10, force="accept", prog=[["steps", 2], ["swap"], ["steps", 2], ["swap"], ["steps", 1], ["swap"], ["return"], ["shutdown"]])))
     if tier == "thorough":
         scen.append(("n5_pca", dict(temps=[1, 1, 2, 4, 4], starts=[[-3, 4], [4, -3], [0, 1], [3, 3], [-2, -2]], kind="pca", display=True,
                                     seed=s + 6, prog=[["advance", 64, 7], ["return"], ["advance", 5, 10], ["return"], ["shutdown"]])))
